@@ -190,16 +190,18 @@ Definition s_one : str := [49]%N.
 
 Definition is_xsi (a : iattr) : bool := uri_is (fst (fst a)) uri_xsi.
 
-Definition spec_nil (ats : list iattr) : bool :=
-  existsb (fun a => is_xsi a && str_eqb (snd (fst a)) s_nil &&
-                    match snd a with IText v => str_eqb v s_true || str_eqb v s_one | _ => false end) ats.
-
-Fixpoint spec_xsitype (ats : list iattr) : option (option str * str) :=
+(* the xsi:<local> attribute of an element (at most one in a well-formed document) *)
+Fixpoint ifind_xsi (local : str) (ats : list iattr) : option ival :=
   match ats with
   | [] => None
-  | a :: r => if is_xsi a && str_eqb (snd (fst a)) s_type
-              then match snd a with IQName u l => Some (u, l) | IText _ => None end
-              else spec_xsitype r
+  | a :: r => if is_xsi a && str_eqb (snd (fst a)) local then Some (snd a) else ifind_xsi local r
+  end.
+
+(* xsi:nil is an xsd:boolean: "true" or "1" *)
+Definition spec_nil (ats : list iattr) : bool :=
+  match ifind_xsi s_nil ats with
+  | Some (IText v) => str_eqb v s_true || str_eqb v s_one
+  | _ => false
   end.
 
 Definition ctype_eqb (a b : ctype) : bool := qn_eqb (c_ns a, c_name a) (c_ns b, c_name b).
@@ -216,9 +218,10 @@ Definition derives (a b : ctype) : bool := existsb (ctype_eqb b) (chain_of S a).
 (* the type an element actually has: its declared type, or the one xsi:type
    names, which must be (derived from) the declared one.  None = not valid *)
 Definition actual_type (dt : rtype) (ats : list iattr) : option rtype :=
-  match spec_xsitype ats with
-  | None => if existsb (fun a => is_xsi a && str_eqb (snd (fst a)) s_type) ats then None else Some dt
-  | Some (tu, tl) =>
+  match ifind_xsi s_type ats with
+  | None => Some dt
+  | Some (IText _) => None
+  | Some (IQName tu tl) =>
       if uri_is tu uri_xsd then
         match sfind tl builtin_names, dt with
         | Some k, RB k0 => if N.eqb k k0 then Some (RB k) else None
@@ -279,6 +282,7 @@ Fixpoint ref_node (dt : rtype) (nillable : bool) (x : inode) {struct x} : option
       if spec_nil ats then
         (* xsi:nil as None *)
         if nillable && match kids with [] => true | _ => false end && match text with [] => true | _ => false end
+           && forallb is_xsi ats
         then match actual_type dt ats with Some _ => Some PNone | None => None end
         else None
       else
